@@ -234,7 +234,7 @@ def run_property(modname, tier, seed=0, only=None, jobs=None):
                 known_hits.append((hit, r['name'], v))
                 continue
             n_viol += 1
-            digest = hashlib.sha1(json.dumps([r['name'], v['inputs']], sort_keys=True, default=str).encode()).hexdigest()[:10]
+            digest = hashlib.sha1(json.dumps([r['name'], v['label'], v.get('message', ''), v['inputs']], sort_keys=True, default=str).encode()).hexdigest()[:10]
             path = os.path.join(REPLAY_DIR, f'{prop}-{digest}.json')
             json.dump(dict(property=prop, tier=tier, obligation=r['name'], params=r['params'], label=v['label'],
                            message=v.get('message', ''), replayed=reproduced, inputs=v['inputs']),
@@ -246,6 +246,8 @@ def run_property(modname, tier, seed=0, only=None, jobs=None):
             elif n_viol == 9:
                 lines.append(f'  ... further violations are only written to {REPLAY_DIR}')
             exit_code = max(exit_code, 1)
+    if n_viol:
+        exit_code = 1  # a violation replayed on the real code is a verdict whatever else went wrong (engine errors are still printed)
     seen = set()
     for hit, name, v in known_hits:
         if hit['id'] in seen:
